@@ -107,7 +107,11 @@ func DebugCompose(writer, parser, root string, rootPtr bool) {
 		fmt.Println("no such function")
 		return
 	}
-	ws, ps := ck.IP.Summarize(wf), ck.IP.Summarize(pf)
+	ws := ck.IP.Summarize(wf)
+	ps := &pathint.Summary{}
+	if os.Getenv("ASTVERIF_GUIDED") == "" {
+		ps = ck.IP.Summarize(pf)
+	}
 	fmt.Printf("writer outcomes=%d parser outcomes=%d\n", len(ws.Outcomes), len(ps.Outcomes))
 	for i := range ws.Outcomes {
 		o := &ws.Outcomes[i]
@@ -117,12 +121,20 @@ func DebugCompose(writer, parser, root string, rootPtr bool) {
 		if only := os.Getenv("ASTVERIF_COMPOSE_ONLY"); only != "" && only != fmt.Sprint(i) {
 			continue
 		}
+		if rootPtr && o.ParamConds["nil:"+root] {
+			continue
+		}
+		if max := os.Getenv("ASTVERIF_COMPOSE_MAX"); max != "" && fmt.Sprint(i) == max {
+			break
+		}
 		src := ck.SourceFromOutcome(wf, o, "$w", fmt.Sprintf("%s#%d", writer, i))
 		fmt.Printf("-- source %s: %s\n", src.Name, src.Describe())
 		fmt.Printf("   total=%s ok=%v facts=%v\n", src.Total, src.TotalOK, src.St.Facts)
-		comp := ck.Compose(src, pf, ps, "$i", root, rootPtr, layout.ComposeOpts{})
+		var comp *layout.Composition
 		if os.Getenv("ASTVERIF_GUIDED") != "" {
 			comp = ck.Guided(src, pf, "$i", root, rootPtr, layout.ComposeOpts{})
+		} else {
+			comp = ck.Compose(src, pf, ps, "$i", root, rootPtr, layout.ComposeOpts{})
 		}
 		fmt.Printf("   parser outcomes compatible: %d consumed=%s assumed=%v\n", comp.Outcomes, comp.Consumed, comp.Assumed)
 		for _, pr := range comp.Problems {
